@@ -1425,13 +1425,99 @@ def fs_real_stream(pid, ctx):
               "(delivered = accepted, no empty batch, one handled error per filter failure); appends under the poll watcher are not demanded (notify compares whole seconds)")
     return s
 
+def kbd_stream(pid, ctx):
+    """the keyboard source on a real Watchexec instance whose fd 0 is a pipe the harness holds the write end of (one process per case)"""
+    import itertools
+    r = random.Random(ctx["seed"] * 53 + 1)
+    s = core.StreamResult("keyboard")
+    d = core.WORK / pid / "keyboard"; d.mkdir(parents=True, exist_ok=True)
+    cases = core.corpus("keyboard")
+    # every script of up to 3 (quick) / 4 (thorough) steps, each settled; `d` and `c` always stand alone between two settles (a close
+    # signal and an end of input that reach the watch task in the same instant are decided by an unbiased select!)
+    L = 4 if ctx["thorough"] else 3
+    k = 0
+    for n in range(1, L + 1):
+        for ops in itertools.product(["on", "off", "d", "c"], repeat=n):
+            if sum(1 for o in ops if o == "c") > 1: continue
+            cases.append(f"kx{k} " + ";".join(o + ";y" for o in ops)); k += 1
+    # longer random scripts with bursts of configuration changes the worker sees as ONE wake-up
+    for i in range(160 if ctx["thorough"] else 48):
+        ops = []; closed = False
+        for _ in range(r.randint(3, 8)):
+            x = r.random()
+            if x < 0.5: ops.append(";".join(r.choice(["on", "off"]) for _ in range(r.randint(1, 4))))
+            elif x < 0.75: ops.append("d")
+            elif not closed: ops.append("c"); closed = True
+            else: ops.append("d")
+        cases.append(f"kr{i} " + ";".join(o + ";y" for o in ops))
+    impl, culprits, fatal = core.run_chunks("wxkbd", cases, 12, 600 if ctx["thorough"] else 200)
+    if fatal: s.error = fatal; return s
+    for c, why in culprits: s.oracle_failures.append((cases.index(c), c, "", f"no answer on this keyboard script: {why}"))
+    def attempt(cs, kk):
+        im, _c, _f = core.run_chunks("wxkbd", cs, kk, 200)
+        return im
+    (d / "cases.txt").write_text("\n".join(cases) + "\n")
+    ok, err = core.run_driver(["kbd"], d / "cases.txt", d / "model.txt")
+    if not ok: s.error = "wxdriver kbd failed: " + err[-600:]; return s
+    model = dict(zip(cases, core.read_lines(d / "model.txt")))
+    # an event that is merely late on a loaded machine shows as a smaller count: such cases run again, two at a time
+    late = [c for c in cases if c in impl and impl[c].split(" ")[1:2] != model[c].split(" ")[1:2] and "HUNG" not in impl[c] and "DIED" not in impl[c]]
+    if late:
+        s.bump("timing-suspects-rerun", len(late))
+        impl.update(attempt(late, 2))
+    cases = [c for c in cases if c in impl]
+    (d / "impl.txt").write_text("\n".join(impl[c] for c in cases) + "\n")
+    s.evaluations = len(cases)
+    for i, c in enumerate(cases):
+        o, mo = impl[c], model[c]
+        ops = c.split(" ")[1].split(";")
+        if " HUNG" in o or " DIED" in o or "=" not in o:
+            s.oracle_failures.append((i, c, o, "the Watchexec instance hung or died while its keyboard source was being driven")); continue
+        f = dict(x.split("=", 1) for x in o.split(" ")[1:])
+        if f"{c.split(' ')[0]} eof={f['eof']}" != mo: s.disagreements.append((i, c, o, mo))
+        eof = int(f["eof"]); what = None
+        ons = sum(1 for x in ops if x == "on")
+        # the state at the end of the script: configured value, whether stdin is at end of input
+        enabled = next((x == "on" for x in reversed(ops) if x in ("on", "off")), False)
+        # switches from disabled to enabled as the worker can see them: the configured value at every settling point
+        seq, cur = [False], False
+        for x in ops + ["y"]:
+            if x in ("on", "off"): cur = x == "on"
+            elif x == "y": seq.append(cur)
+        edges = sum(1 for a, b in zip(seq, seq[1:]) if b and not a)
+        if f["other"] != "0": what = f"the action handler was handed {f['other']} event(s) that are no keyboard EOF although nothing else happened"
+        elif int(f["batches"]) != eof: what = f"{eof} keyboard EOF event(s) were handed over in {f['batches']} batch(es): an event in two batches, two in one although they were settled apart, or an empty batch"
+        elif ons == 0 and eof: what = f"keyboard events were never enabled, yet {eof} EOF event(s) reached the action handler"
+        elif "c" not in ops and eof: what = f"stdin never reached end of input, yet {eof} EOF event(s) reached the action handler"
+        elif eof > ons: what = f"{eof} EOF events for {ons} call(s) of keyboard_events(true): more than one per watch task"
+        elif eof > edges: what = f"{eof} EOF events although the source was switched from disabled to enabled only {edges} time(s) (as seen whenever things had settled): one end of input was reported twice"
+        elif enabled and "c" in ops and eof == 0: what = "the keyboard source is enabled and stdin is at end of input, yet no EOF event reached the action handler: the event was lost"
+        elif f["errors"] != "0": what = f"{f['errors']} runtime error(s) although nothing failed"
+        elif f["main"] != "running": what = "the main task ended while only the keyboard source was being driven"
+        # the plain use: enabled once (settled), never switched again, then end of input: exactly one event
+        if not what and ons == 1 and "off" not in ops and "c" in ops and eof != 1: what = f"enabled once, one end of input: exactly one EOF event is due, {eof} were handed over"
+        if what: s.oracle_failures.append((i, c, o, what))
+        s.bump(f"eof={eof}"); s.bump("enabled at the end" if enabled else "disabled at the end")
+        if any(ops[j] in ("on", "off") and ops[j + 1] in ("on", "off") for j in range(len(ops) - 1)): s.bump("coalesced changes")
+        if eof >= 1 and ons >= 2: s.nontrivial.add(hashlib.md5((c.split(" ", 1)[1] + o).encode()).digest()[:8])
+        elif eof >= 1 or ("c" in ops and ons): s.nontrivial.add(hashlib.md5((c.split(" ", 1)[1] + o).encode()).digest()[:8])
+        if i % max(1, len(cases) // 3) == 0 and len(s.samples) < 3: s.samples.append({"case": c, "impl": o, "model": mo})
+    s.exhaustive = False
+    s.note = (f"a real Watchexec instance per case in its own process whose fd 0 is a pipe held by the harness: every script of up to {L} settled steps over "
+              "{keyboard_events(true), keyboard_events(false), input bytes, end of input} plus random longer ones with bursts of unsettled configuration changes; the model (Kb) "
+              "predicts the number of Keyboard::Eof events the action handler sees; the oracle demands each in exactly one batch, none while disabled or before end of input, at most "
+              "one per enabling, none lost when the source ends up enabled at end of input, exactly one in the plain use")
+    return s
+
+
 def worker_plan(pid, theorems, rule_extra):
     fsreal = pid == "C01"
-    return dict(modules=["Wx.Glob.Throttle", "Wx.Glob.ThrottleRun"] + (["Wx.Fs.Source"] if fsreal else []),
-                theorems=theorems + (["Fsrc.rejected_never_ok", "Fsrc.outside_never_ok", "Fsrc.missing_is_flagged"] if fsreal else []),
-                bins=[("lib", ["wxthrottle"] + (["wxfsreal"] if fsreal else []))],
-                streams=(lambda ctx: [worker_stream(pid, ctx), fs_real_stream(pid, ctx)]) if fsreal else (lambda ctx: [worker_stream(pid, ctx)]),
-                sources=["crates/lib/src/action/worker.rs", "crates/lib/src/watchexec.rs", "crates/lib/src/filter.rs", "crates/events/src/event.rs"] + (["crates/lib/src/sources/fs.rs"] if fsreal else []),
+    return dict(modules=["Wx.Glob.Throttle", "Wx.Glob.ThrottleRun"] + (["Wx.Fs.Source", "Wx.Kb.Thm"] if fsreal else []),
+                theorems=theorems + (["Fsrc.rejected_never_ok", "Fsrc.outside_never_ok", "Fsrc.missing_is_flagged",
+                                      "Kb.eof_never_lost", "Kb.eof_exactly_once", "Kb.delivered_le_enables", "Kb.disabled_delivers_nothing", "Kb.inv_run"] if fsreal else []),
+                bins=[("lib", ["wxthrottle"] + (["wxfsreal", "wxkbd"] if fsreal else []))],
+                streams=(lambda ctx: [worker_stream(pid, ctx), fs_real_stream(pid, ctx), kbd_stream(pid, ctx)]) if fsreal else (lambda ctx: [worker_stream(pid, ctx)]),
+                sources=["crates/lib/src/action/worker.rs", "crates/lib/src/watchexec.rs", "crates/lib/src/filter.rs", "crates/events/src/event.rs"] + (["crates/lib/src/sources/fs.rs", "crates/lib/src/sources/keyboard.rs", "crates/lib/src/config.rs"] if fsreal else []),
                 rule="a case is one arrival script (throttle, handler time, events with time / priority / emptiness / filter verdict); non-trivial = at least two batches; distinct by (script, observation). " + rule_extra,
                 assumptions=["async-priority-channel is a bounded priority heap (order within one priority unspecified) — external, modelled as the turn input",
                              "tokio::time::timeout and std::time::Instant: each clock reading is an input of a turn; only monotonicity is relied on",
